@@ -232,8 +232,11 @@ def observe_use(tree, events_so_far, frac=False):
 def run_session(steps):
     """steps: ["define", name, items] | ["clear"] | ["use", tree], executed in order in ONE interpreter state (no reset
     in between: what an earlier use left behind in the library is still there at a later one).
+    The session starts from a FRESH LIBRARY STATE (core.fresh_impl(): the modules are imported again), without any
+    clear_unit_definitions() call and without touching UNIT_DEFINITIONS from outside: the first define of the session is
+    the first define of the process, the first clear its first clear.
     Returns the list of observations of the use steps, in order."""
-    reset_state()
+    core.fresh_impl()
     out, events = [], []
     try:
         for st in steps:
@@ -741,9 +744,40 @@ def use_trees(rng, events, focus=None, n=None):
     return out
 
 
+def stale_probes(rng, events, n=None):
+    """uses whose unit is GIVEN (or computed) in the expanded form of a definition made at any earlier point of the
+    session, also one that has since been cleared or replaced: printing, powers and products of such units must follow
+    the definitions in force now, not the ones that used to be"""
+    bodies = [(ev[1], ev[2]) for ev in events if ev[0] == "define"]
+    out = []
+    if not bodies:
+        return out
+    for _ in range(n or rng.randrange(1, 4)):
+        name, body = rng.choice(bodies)
+        body = [list(x) for x in body]
+        p = Fraction(rng.choice([1, 1, 1, 2, -1, 3]))
+        scaled = [item(n_, Fraction(a, b) * p) for n_, a, b in body]
+        k = rng.random()
+        if k < 0.4:
+            t = leaf(permuted(rng, scaled) if rng.random() < 0.4 else scaled)            # printed as given
+        elif k < 0.6:
+            t = ["bin", "pow", leaf(body), cst(rng.choice([2, -1, 3, Fraction(1, 2)]))]    # constant power: not packed in the dict
+        elif k < 0.8 and len(body) > 1:
+            i = rng.randrange(1, len(body))
+            t = ["bin", "mul", leaf(body[:i]), leaf(body[i:])]                          # computed after the change
+        elif k < 0.9:
+            t = ["un", rng.choice(["neg", "sqrt"]), leaf(scaled)]
+        else:
+            t = ["bin", "add", leaf(scaled), leaf(permuted(rng, scaled))]
+        out.append(["use", t])
+    return out
+
+
 def gen_session(rng):
     """define / clear / use steps; a good share redefines (or defines for the first time) a name on which an already
-    USED name is built, without a clear in between"""
+    USED name is built, without a clear in between; another share clears (the FIRST clear of the process) after
+    definitions were made, optionally defines the names differently, and then prints / computes units in the expanded
+    form of the earlier definitions"""
     steps, events = [], []
 
     def ev(e):
@@ -753,8 +787,34 @@ def gen_session(rng):
     def uses(focus=None, n=None):
         steps.extend(use_trees(rng, events, focus, n))
 
+    def stale(n=None):
+        steps.extend(stale_probes(rng, events, n))
+
     r = rng.random()
     chain = rng.choice(CHAINS)
+    if r < 0.22:
+        # definitions made before the first clear of the process, clear, (other bodies), units in the old expanded forms
+        for n in chain:
+            ev(["define", n, [list(x) for x in rng.choice(VARIANTS[n])]])
+        if rng.random() < 0.5:
+            uses(chain, 1)
+        if rng.random() < 0.3:
+            stale(1)
+        ev(["clear"])
+        if rng.random() < 0.6:
+            stale()
+        k = rng.random()
+        if k < 0.7:
+            for n in (chain if rng.random() < 0.5 else chain[:1]):
+                ev(["define", n, [list(x) for x in rng.choice(VARIANTS[n])]])
+            stale()
+            if rng.random() < 0.5:
+                uses(chain, 1)
+        if rng.random() < 0.3:
+            ev(["clear"])
+            stale(1)
+        return steps
+    r = (r - 0.22) / 0.78
     if r < 0.45:
         # chain defined bottom-up, dependents used, then a lower name redefined, dependents used again
         for n in chain:
@@ -780,9 +840,11 @@ def gen_session(rng):
         uses(chain)
         ev(["clear"])
         uses(chain, 1)
+        stale(1)
         for n in chain:
             ev(["define", n, [list(x) for x in rng.choice(VARIANTS[n])]])
             uses([n], 1)
+        stale(1)
     else:
         # random interleaving over an acyclic vocabulary (a name only mentions names earlier in ORDER)
         order = ["X", "Y", "Z", "L"]
@@ -798,14 +860,27 @@ def gen_session(rng):
                 ev(["define", order[i], body])
             elif k < 0.52:
                 ev(["clear"])
+            elif k < 0.65:
+                stale(1)
             else:
                 uses(defined)
     return steps
 
 
 def session_templates():
-    """deterministic small scope: every chain x every (lower name, other body) redefinition after the dependents were used"""
+    """deterministic small scope: every chain x every (lower name, other body) redefinition after the dependents were used;
+    every name x (define, clear, [define with another body]) followed by units in the expanded form of the first body"""
     out = []
+    for name, variants in sorted(VARIANTS.items()):
+        first = [list(x) for x in variants[0]]
+        probes = [["use", leaf(first)], ["use", ["bin", "pow", leaf(first), cst(2)]],
+                  ["use", ["bin", "mul", leaf(first), leaf([item("kg", 1)])]]]
+        if len(first) > 1:
+            probes.append(["use", ["bin", "mul", leaf(first[:1]), leaf(first[1:])]])
+        out.append([["define", name, first]] + probes + [["clear"]] + probes)
+        for other in variants[1:]:
+            out.append([["define", name, first], ["clear"], ["define", name, [list(x) for x in other]]] + probes)
+            out.append([["define", name, first], ["define", name, [list(x) for x in other]]] + probes)
     for chain in CHAINS:
         if len(chain) < 2:
             continue
